@@ -10,27 +10,44 @@
 (*  i answers query i of the case; fail = calls that panicked, nan = a     *)
 (*  non-finite / out-of-budget real among the facts (harness limit), nana  *)
 (*  = the same in the index's own answer (a wrong answer)                  *)
-(*   closest  {d2,cp,ri,rp}            OctTree.ClosestPoint                *)
+(*   closest  {d2,cp,mcp,ri,rp}        OctTree.ClosestPoint                *)
 (*   contain  {hit,res}                ElementsContainingPoint             *)
 (*   range    {hit,res}                ElementsWithinRange                 *)
 (*   ray      {hit,res,trav}           ElementsIntersectingRay and the     *)
 (*                                     passive TraverseIntersectingRay     *)
 (*   near     {te,hitb,vis,ri,rt}      narrowing traversal (nearest hit)   *)
-(*   hit      {te,list,bvh,oct}        HitList / BVHNode / rendering.Tree  *)
+(*   hit      {te,list,bvh,oct,msh,msh2} HitList / BVHNode / rendering.Tree*)
+(*                                     / rendering.Mesh.Hit / Mesh.Hit2    *)
+(*                                     (st "NONE": not a mesh scene)       *)
 (*  {"k":"scene","kind","n","rep","st"}   hittables + one BVH build        *)
 (* d2, cp, te, hit, hitb are the exhaustive scan (element-level real       *)
 (* primitives applied to every element); ri/rp/res/trav/vis/rt/list/bvh/   *)
 (* oct are what the real index answered. TLC judges; rejected lines are    *)
 (* printed as {"l","bad","fails"} (fails: entry numbers per predicate).    *)
+(*                                                                         *)
+(* Round 2. A tree may come from any mesh-level entry point (attr: the     *)
+(* float3 attribute it was built on, "" = Mesh.OctTree / OctTreeDepth) of  *)
+(* a mesh with any index buffer; the scan (eb, d2, cp, ...) is taken from  *)
+(* the unrolled twin of the mesh (Position only, implied indices), so it   *)
+(* does not share the route of the index. Next to it the MESH-LEVEL scan   *)
+(* is logged - Primitive.BoundingBox(attr) (tree line: mst, meb) and       *)
+(* Primitive.ClosestPoint(attr, q) (closest entries: mcp; line: mfail) of  *)
+(* every primitive Mesh.ScanPrimitives hands out - and judged by           *)
+(*   C16.ScanAgree  the two scans say the same about every element, and    *)
+(*                  the closest point of an element lies in its bounds     *)
+(* and C16.Closest also demands that the returned point lies inside the    *)
+(* bounds of the returned element.                                         *)
 (***************************************************************************)
 EXTENDS SpatialIndex, TLC, Json
 
 Trace == ndJsonDeserialize("trace.ndjson")
 
-VARIABLES l, n, tree
-vars == <<l, n, tree>>
+FxS == 65536  \* fixed-point units per lattice unit (harness/spatial/types.go: S)
 
-Init == l = 1 /\ n = 0 /\ tree = "none"
+VARIABLES l, n, tree, ebs
+vars == <<l, n, tree, ebs>>
+
+Init == l = 1 /\ n = 0 /\ tree = "none" /\ ebs = <<>>
 
 Line == Trace[l]
 B == Line.b
@@ -52,34 +69,53 @@ Tree ==
            built == ln.st = "OK"
            shapeOK == built => (Len(ln.eb) = ln.n /\ \A e \in DOMAIN ln.eb : WellFormedBox(ln.eb[e]))
            unsound == IF built /\ shapeOK THEN TreeUnsound(ln.cells, ln.eb, ln.n) ELSE {}
-       IN /\ Report([p \in {"C16.Build", "C16.TreeSound", "Harness.Inexact", "Harness.Shape"} |->
+           \* the mesh-level scan of the bounds: the same boxes, element by element
+           scanOK == built => (ln.mst = "NONE" \/ (ln.mst = "OK" /\ ln.meb = ln.eb))
+       IN /\ Report([p \in {"C16.Build", "C16.TreeSound", "C16.ScanAgree", "Harness.Inexact", "Harness.Shape"} |->
                       CASE p = "C16.Build" -> IF built THEN {} ELSE {0}
                         [] p = "C16.TreeSound" -> IF unsound = {} THEN {} ELSE {0}
+                        [] p = "C16.ScanAgree" -> IF scanOK THEN {} ELSE {0}
                         [] p = "Harness.Inexact" -> IF built /\ ~ln.exact THEN {0} ELSE {}
                         [] OTHER -> IF shapeOK THEN {} ELSE {0}])
           /\ n' = IF built THEN ln.n ELSE 0
           /\ tree' = ln.kind
+          /\ ebs' = IF built /\ shapeOK THEN ln.eb ELSE <<>>
     /\ l' = l + 1
 
 \* every fact list talks about the n elements of the current tree
 FactsN(s) == Len(s) = n
 Ids(s) == Range(s) \subseteq 1..n
 
+\* fixed-point point p inside lattice box b, to within the band
+FxIn(p, b) == \A d \in 1..3 : b.lo[d] * FxS - Band <= p[d] /\ p[d] <= b.hi[d] * FxS + Band
+FxNear(p, q) == \A d \in 1..3 : p[d] - q[d] <= Band /\ q[d] - p[d] <= Band
+HaveBounds == Len(ebs) = n
+\* the mesh-level scan of entry i agrees with the scan, element by element
+MeshScanOK(i) ==
+    /\ i \notin Range(Line.mfail)
+    /\ Len(B[i].mcp) = 0 \/ (Len(B[i].mcp) = n /\ \A e \in 1..n : FxNear(B[i].mcp[e], B[i].cp[e]))
+\* every element's closest point lies in that element's bounds
+ScanInBounds(i) == HaveBounds => \A e \in 1..n : FxIn(B[i].cp[e], ebs[e])
+
 Closest ==
     /\ Line.k = "closest"
-    /\ Report([p \in {"C16.Closest", "Harness.NaN", "Harness.Shape"} |->
+    /\ Report([p \in {"C16.Closest", "C16.ScanAgree", "Harness.NaN", "Harness.Shape"} |->
           CASE p = "C16.Closest" ->
-                 Fails(LAMBDA i : Ran(i) /\ (~Finite(i) \/ ~FactsN(B[i].d2) \/ (Answered(i) /\ ClosestOK(B[i].d2, B[i].cp, B[i].ri, B[i].rp))))
+                 Fails(LAMBDA i : Ran(i) /\ (~Finite(i) \/ ~FactsN(B[i].d2) \/
+                        (/\ Answered(i) /\ ClosestOK(B[i].d2, B[i].cp, B[i].ri, B[i].rp)
+                         /\ HaveBounds => FxIn(B[i].rp, ebs[B[i].ri]))))
+            [] p = "C16.ScanAgree" ->
+                 Fails(LAMBDA i : ~Finite(i) \/ ~FactsN(B[i].d2) \/ ~FactsN(B[i].cp) \/ (MeshScanOK(i) /\ ScanInBounds(i)))
             [] p = "Harness.NaN" -> Fails(Finite)
             [] OTHER -> Fails(LAMBDA i : FactsN(B[i].d2) /\ FactsN(B[i].cp))])
-    /\ UNCHANGED <<n, tree>> /\ l' = l + 1
+    /\ UNCHANGED <<n, tree, ebs>> /\ l' = l + 1
 
 SetQuery(kind, pred) ==
     /\ Line.k = kind
     /\ Report([p \in {pred, "Harness.Shape"} |->
           IF p = pred THEN Fails(LAMBDA i : Ran(i) /\ SetAgrees(B[i].res, B[i].hit))
           ELSE Fails(LAMBDA i : Ids(B[i].hit))])
-    /\ UNCHANGED <<n, tree>> /\ l' = l + 1
+    /\ UNCHANGED <<n, tree, ebs>> /\ l' = l + 1
 
 Ray ==
     /\ Line.k = "ray"
@@ -87,7 +123,7 @@ Ray ==
           CASE p = "C16.Ray" -> Fails(LAMBDA i : Ran(i) /\ SetAgrees(B[i].res, B[i].hit))
             [] p = "C16.Traverse" -> Fails(LAMBDA i : Ran(i) /\ SetAgrees(B[i].trav, B[i].hit))
             [] OTHER -> Fails(LAMBDA i : Ids(B[i].hit))])
-    /\ UNCHANGED <<n, tree>> /\ l' = l + 1
+    /\ UNCHANGED <<n, tree, ebs>> /\ l' = l + 1
 
 \* narrowing traversal: right nearest hit, and only elements whose bounds the
 \* ray crosses inside the initial range are offered to the iterator, once each
@@ -100,18 +136,19 @@ Near ==
                          /\ NoDup(B[i].vis) /\ Range(B[i].vis) \subseteq Range(B[i].hitb))))
             [] p = "Harness.NaN" -> Fails(Finite)
             [] OTHER -> Fails(LAMBDA i : FactsN(B[i].te) /\ Ids(B[i].hitb))])
-    /\ UNCHANGED <<n, tree>> /\ l' = l + 1
+    /\ UNCHANGED <<n, tree, ebs>> /\ l' = l + 1
 
 Scene ==
     /\ Line.k = "scene"
     /\ Report([p \in {"C16.Build"} |-> IF Line.st = "OK" THEN {} ELSE {0}])
-    /\ n' = Line.n /\ tree' = Line.kind
+    /\ n' = Line.n /\ tree' = Line.kind /\ ebs' = <<>>
     /\ l' = l + 1
 
 Returned(r) == r.st = "OK"
+Absent(r) == r.st = "NONE"
 Hit ==
     /\ Line.k = "hit"
-    /\ Report([p \in {"C16.ListHit", "C16.BvhHit", "C16.OctHit", "Harness.NaN", "Harness.Shape"} |->
+    /\ Report([p \in {"C16.ListHit", "C16.BvhHit", "C16.OctHit", "C16.MeshHit", "C16.MeshHit2", "Harness.NaN", "Harness.Shape"} |->
           CASE p = "C16.ListHit" ->
                  Fails(LAMBDA i : ~Finite(i) \/ ~FactsN(B[i].te) \/ (Answered(i) /\ Returned(B[i].list) /\ HitOK(B[i].te, B[i].list)))
             [] p = "C16.BvhHit" ->
@@ -122,9 +159,17 @@ Hit ==
                  Fails(LAMBDA i : ~Finite(i) \/ ~FactsN(B[i].te) \/
                         (/\ Answered(i) /\ Returned(B[i].oct) /\ HitOK(B[i].te, B[i].oct)
                          /\ Returned(B[i].list) => SameHit(B[i].oct, B[i].list)))
+            [] p = "C16.MeshHit" ->
+                 Fails(LAMBDA i : ~Finite(i) \/ ~FactsN(B[i].te) \/ Absent(B[i].msh) \/
+                        (/\ Answered(i) /\ Returned(B[i].msh) /\ HitOK(B[i].te, B[i].msh)
+                         /\ Returned(B[i].list) => SameHit(B[i].msh, B[i].list)))
+            [] p = "C16.MeshHit2" ->
+                 Fails(LAMBDA i : ~Finite(i) \/ ~FactsN(B[i].te) \/ Absent(B[i].msh2) \/
+                        (/\ Answered(i) /\ Returned(B[i].msh2) /\ HitOK(B[i].te, B[i].msh2)
+                         /\ Returned(B[i].list) => SameHit(B[i].msh2, B[i].list)))
             [] p = "Harness.NaN" -> Fails(Finite)
             [] OTHER -> Fails(LAMBDA i : FactsN(B[i].te))])
-    /\ UNCHANGED <<n, tree>> /\ l' = l + 1
+    /\ UNCHANGED <<n, tree, ebs>> /\ l' = l + 1
 
 Next == l <= Len(Trace) /\ (Tree \/ Closest \/ SetQuery("contain", "C16.Contain") \/ SetQuery("range", "C16.Range")
                             \/ Ray \/ Near \/ Scene \/ Hit)
